@@ -46,6 +46,7 @@ def _exact_listing_store(target=4096):
 
 
 INITIAL.append((_exact_listing_store(), "a"))
+INITIAL.append(({"holiday ": b"keep;\r\n", " old": b"stop;\r\n", "a": b"discard;\r\n"}, "holiday "))  # blanks at the edges of a name are part of the name
 DEBUG_STORES = {4}
 CUTS = [1, 7, "cr1", "crl"]  # thorough adds 2 and -1 (see run)
 
